@@ -19,8 +19,11 @@ from harness.tlc import MachineryError, TlcResult
 
 ROOT = Path(__file__).resolve().parent.parent
 SPEC = ROOT / "spec"
-EVIDENCE = ROOT / "evidence"
-REPLAYS = ROOT / "replays"
+# a run against a scratch worktree (VERIF_REPO, used to try seeded changes) must not overwrite the
+# evidence and replays of the tree under verification
+_SCRATCH = os.environ.get("VERIF_REPO") not in (None, "", "/repo")
+EVIDENCE = ROOT / (".cache/scratch-evidence" if _SCRATCH else "evidence")
+REPLAYS = ROOT / (".cache/scratch-replays" if _SCRATCH else "replays")
 CACHE = ROOT / ".cache"
 FINDINGS_FILE = ROOT / "known_findings.json"
 REPO = Path(os.environ.get("VERIF_REPO", "/repo"))
@@ -177,9 +180,14 @@ class Ctx:
 
     def validate(self, module: str, traces: list[dict], *, cfg: str | None = None,
                  timeout: int = 1800, chunk: int = 40000, workers: int | str = 1,
-                 env: dict[str, str] | None = None) -> dict[int, list[tuple[str, int]]]:
+                 env: dict[str, str] | None = None, _single: bool = False) -> dict[int, list[tuple[str, int]]]:
         """Trace validation: TLC evaluates the property formulas of *module* on every recorded
-        trace.  Returns {index in traces: [(violated formula, step)]}; traces absent are OK."""
+        trace.  Returns {index in traces: [(violated formula, step)]}; traces absent are OK.
+
+        TLC reports only the FIRST violated invariant (in cfg order) of a state.  Traces with a
+        violation are therefore validated again, once per formula of the cfg, so that the verdict
+        lists every violated formula and a caller that filters by clause cannot be blinded by an
+        earlier clause that is violated in the same state."""
         verdicts: dict[int, list[tuple[str, int]]] = {}
         jobs = []
         for base in range(0, len(traces), chunk):
@@ -226,7 +234,36 @@ class Ctx:
                     f"trace validation {module}: only {res.distinct} states for {expect} trace "
                     f"positions (traces not fully consumed)")
             shutil.rmtree(wd, ignore_errors=True)
+        if verdicts and not _single:
+            self._complete_verdicts(module, traces, cfg, verdicts, timeout=timeout, workers=workers, env=env)
         return verdicts
+
+    def _complete_verdicts(self, module, traces, cfg, verdicts, **kw) -> None:
+        cfg_path = Path(cfg) if cfg else tlc.SPEC_DIR / f"{module}.cfg"
+        if not cfg_path.is_absolute() and not cfg_path.exists():
+            cfg_path = tlc.SPEC_DIR / cfg_path
+        keep, formulas = [], []
+        for line in cfg_path.read_text().splitlines():
+            w = line.split()
+            if w and w[0] in ("INVARIANT", "INVARIANTS", "PROPERTY", "PROPERTIES"):
+                formulas += [("INVARIANT" if w[0].startswith("INV") else "PROPERTY", n) for n in w[1:]]
+            else:
+                keep.append(line)
+        if len(formulas) < 2:
+            return
+        subset = sorted(verdicts)
+        part = [traces[i] for i in subset]
+        before = self.traces_validated
+        for kind, name in formulas:
+            one = self.work / f"{module}.only-{name}.cfg"
+            one.write_text("\n".join(keep + [f"{kind} {name}"]) + "\n")
+            sub = self.validate(module, part, cfg=str(one), chunk=max(1, len(part)), _single=True, **kw)
+            for j, lst in sub.items():
+                have = verdicts.setdefault(subset[j], [])
+                for n, step in lst:
+                    if all(n != m for m, _ in have):
+                        have.append((n, step))
+        self.traces_validated = before  # the second pass re-reads traces that were already counted
 
     # ---------------------------------------------------------------- bookkeeping
     def sample(self, x: Any, limit: int = 5) -> None:
@@ -274,7 +311,7 @@ class Ctx:
         return rc
 
     def write_evidence(self, nviol: int, known: list[str], replays: list[str]) -> None:
-        EVIDENCE.mkdir(exist_ok=True)
+        EVIDENCE.mkdir(parents=True, exist_ok=True)
         cov: dict[str, Any] = {
             "states": self.states,
             "transitions": self.transitions,
